@@ -502,7 +502,11 @@ class AsyncFIXConnection:
             _is_err = True
             if msg.msg_type == FMsg.SEQUENCERESET:
                 _is_err = False
-            if self._connection_state == ConnectionState.RESENDREQ_AWAITING:
+            if (
+                self._connection_state == ConnectionState.RESENDREQ_AWAITING
+                and msg.get(FTag.PossDupFlag, None) == "Y"
+            ):
+                # resent duplicate of something already processed
                 _is_err = False
 
             if _is_err:
